@@ -701,35 +701,12 @@ _STRATEGIES = [
 ]
 
 
-HINTS = None
-
-
-def _hint_for(obname):
-    """Which strategy discharged this obligation on the pinned tree (strategy_hints.json, regenerated by
-    tools/gen_hints.py).  Performance only: the hinted strategy is tried first, the others follow as usual."""
-    global HINTS
-    if HINTS is None:
-        import json
-        import os
-        pth = os.path.join(os.path.dirname(os.path.dirname(os.path.abspath(__file__))), 'strategy_hints.json')
-        try:
-            HINTS = json.load(open(pth))
-        except (OSError, ValueError):
-            HINTS = {}
-    return HINTS.get(obname)
-
-
 def discharge(ob, timeout_ms=10000, use_cvc5=False, quick=False):
     """unsat -> discharged; sat -> failed (with a counter-model); otherwise the next strategy is tried
     (different preprocessing exposes different proofs of the nonlinear obligations); all unknown -> undecided."""
     t0 = time.time()
     reason = None
-    order = _STRATEGIES[:1] if quick else list(_STRATEGIES)
-    hint = None if quick else _hint_for(ob.name)
-    if hint:
-        first = [st for st in _STRATEGIES[1:] if st[0] == hint][:1]
-        order = first + [st for st in order if not (first and st is first[0])]
-    for name, mk, tmo in order:
+    for name, mk, tmo in (_STRATEGIES[:1] if quick else _STRATEGIES):
         try:
             s = z3.Solver() if mk is None else mk().solver()
             s.set('timeout', min(tmo, timeout_ms) if tmo else timeout_ms)
